@@ -19,7 +19,7 @@ def consts(nc, maxn, vals, kinds):
 
 MC_CFG = ("SPECIFICATION Spec\n%s" "CONSTRAINT Bound\nINVARIANT TypeOK PointerClear Recovery %s\n"
           "PROPERTY Frame EffectsPersist AtomicAgrees SyntaxNoEffect\nCHECK_DEADLOCK FALSE\n")
-ENUM_CFG = "INIT EnumInit\nNEXT EnumNext\nCONSTRAINT EnumEmit\n%sCHECK_DEADLOCK FALSE\n"
+ENUM_CFG = "INIT EnumInit\nNEXT EnumNext\n%sCHECK_DEADLOCK FALSE\n"
 TRACE_CFG = ("INIT TraceInit\nNEXT TraceNext\nCONSTRAINT TraceEmit\nINVARIANT TraceTypeOK\n"
              + consts(3, 100, [1], []) + "CHECK_DEADLOCK FALSE\n")
 
@@ -62,10 +62,10 @@ def enumerate_histories(rep, nc, length, alphabet, tag):
         if "limits" in r:
             limits = r["limits"]
         elif "h" in r:
-            k = json.dumps(r["h"])
+            k = json.dumps(r["h"], separators=(",", ":"))
             if k not in seen:
                 seen.add(k)
-                hs.append(r["h"])
+                hs.append(k)              # kept as text: half a million histories as dicts would cost gigabytes
     if limits is None:
         raise Machinery("the specification did not print the limits")
     return hs, limits
@@ -75,30 +75,22 @@ def simulate_histories(rep, nc, length, num, tag):
     """seeded random long histories drawn by TLC's simulator from the same specification"""
     wd = workdir(rep.pid, "sim")
     res = tlc.run(rep.pid, "C12", ENUM_CFG % consts(nc, length, [1], []), env={"ALPHABET": "full"},
-                  timeout=900, tag=tag, simulate="num=%d" % num, depth=length + 1, seed=rep.seed)
+                  timeout=900, tag=tag, simulate="num=%d" % max(1, num // 16), depth=length + 2, seed=rep.seed)
     rep.add_tlc("C12.Simulate(len=%d,nc=%d,num=%d)" % (length, nc, num), res)
     seen, hs = set(), []
     for r in res.records:
         if "h" in r:
-            k = json.dumps(r["h"])
+            k = json.dumps(r["h"], separators=(",", ":"))
             if k not in seen:
                 seen.add(k)
-                hs.append(r["h"])
+                hs.append(k)
     return hs
 
 
 def validate(rep, traces, tag):
     """C->S: the total trace specification consumes every recorded trace event by event"""
-    out = []
-    B = 160000                       # traces per batch of 16 JVMs (heap)
-    st = tr = 0
-    for b in range(0, len(traces), B):
-        part = traces[b:b + B]
-        v, s, t, _ = tlc.judge(rep.pid, "C12", part, TRACE_CFG, tag="%s_%d" % (tag, b // B), timeout=3000)
-        out.extend(x for x in v if "tid" in x)
-        st += s
-        tr += t
-    return out, st, tr
+    v, st, tr, _ = tlc.judge(rep.pid, "C12", traces, TRACE_CFG, tag=tag, timeout=3000)
+    return [x for x in v if "tid" in x], st, tr
 
 
 def show(h):
@@ -125,52 +117,62 @@ def run(rep):
         rep.spaces.append({"space": "all histories of %d events over %d contexts, alphabet %s (TLC-enumerated; "
                                     "every shorter history is a probed prefix)" % (length, nc, alpha),
                            "cases": len(hs), "complete": True})
-        for h in hs:
-            cases.append({"id": len(cases), "nc": nc, "limits": limits[:nc], "h": h})
+        cases += [(nc, h) for h in hs]
     if rep.tier == "thorough":
         hs = simulate_histories(rep, 3, 60, 2000, "sim60")
         if len(hs) < 500:
             raise Machinery("simulation produced only %d long histories" % len(hs))
         rep.spaces.append({"space": "seeded random histories of 60 events over 3 contexts (TLC -simulate, seed %d)" % rep.seed,
                            "cases": len(hs), "complete": False})
-        for h in hs:
-            cases.append({"id": len(cases), "nc": 3, "limits": limits[:3], "h": h})
+        cases += [(3, h) for h in hs]
     T['enumerate'] = round(time.time() - t0, 1)
-    t0 = time.time()
-    # ---- replay on real contexts, probing everything after every step ----
-    traces = engine.run_cases(rep.pid, cases, driver="checks.c12_driver:replay", timeout=3000)
-    if len(traces) != len(cases):
-        raise Machinery("replay returned %d traces for %d histories" % (len(traces), len(cases)))
-    for t in traces:
-        t.pop("id", None)
-    T['replay'] = round(time.time() - t0, 1)
-    t0 = time.time()
-    # ---- C->S: trace validation ----
-    verdicts, st, tr = validate(rep, traces, "trace")
-    T['validate'] = round(time.time() - t0, 1)
+    T['replay'] = T['validate'] = 0.0
+    # ---- replay on real contexts (probing everything after every step), then C->S trace validation; in chunks ----
+    CH = 60000
+    ntr = nev = 0
+    keep = None                      # an accepted trace for the binding self-test
+    for b in range(0, len(cases), CH):
+        t0 = time.time()
+        part = [{"id": b + i, "nc": nc, "limits": limits[:nc], "h": json.loads(h)} for i, (nc, h) in enumerate(cases[b:b + CH])]
+        traces = engine.run_cases(rep.pid, part, driver="checks.c12_driver:replay", timeout=3000, tag="eng_%d" % (b // CH))
+        if len(traces) != len(part):
+            raise Machinery("replay returned %d traces for %d histories" % (len(traces), len(part)))
+        for t in traces:
+            t.pop("id", None)
+        T['replay'] += time.time() - t0
+        t0 = time.time()
+        verdicts, st, tr = validate(rep, traces, "trace_%d" % (b // CH))
+        T['validate'] += time.time() - t0
+        rep.add_judge(len(traces), st, tr)
+        ntr += len(traces)
+        nev += sum(len(t["ev"]) for t in traces)
+        got = {v["tid"]: v for v in verdicts}
+        if len(got) != len(traces):
+            raise Machinery("trace validation returned %d verdicts for %d traces" % (len(got), len(traces)))
+        bytid = {t["tid"]: t for t in traces}
+        hist = {c["id"]: c["h"] for c in part}
+        for tid in sorted(got):
+            v, t = got[tid], bytid[tid]
+            if v["n"] != len(t["ev"]):
+                raise Machinery("trace %d: %d of %d events consumed" % (tid, v["n"], len(t["ev"])))
+            if v["ok"]:
+                if len(rep.samples) < 4 and tid % 9973 == 0:
+                    rep.sample({"history": show(hist[tid]), "last_event": t["ev"][-1], "verdict": "accepted"})
+                if keep is None and selftest_shape(t):
+                    keep = t
+                continue
+            w = v["why"]
+            if w["clause"] == "unsupported":
+                raise Machinery("the model cannot take event %d of history %s" % (w["at"], show(hist[tid])))
+            ev = t["ev"][w["at"] - 1]
+            rep.mismatch("%s @%d %s(c%d)" % (show(hist[tid])[:300], w["at"], w["clause"], w["c"]),
+                         {"clause": w["clause"], "at": w["at"], "context": w["c"], "expected_projection": w["exp"],
+                          "event": ev, "history": hist[tid][:w["at"]]}, dev=w.get("dev", ""))
+        del traces, verdicts, got, bytid, hist, part
+    T = {k: round(v, 1) for k, v in T.items()}
     rep.notes['stage_wall_s'] = T
-    rep.add_judge(len(traces), st, tr)
-    rep.evaluations = sum(len(t["ev"]) for t in traces)
-    got = {v["tid"]: v for v in verdicts}
-    if len(got) != len(traces):
-        raise Machinery("trace validation returned %d verdicts for %d traces" % (len(got), len(traces)))
-    bytid = {t["tid"]: t for t in traces}
-    for tid in sorted(got):
-        v, t = got[tid], bytid[tid]
-        if v["n"] != len(t["ev"]):
-            raise Machinery("trace %d: %d of %d events consumed" % (tid, v["n"], len(t["ev"])))
-        if v["ok"]:
-            if len(rep.samples) < 4 and tid % 9973 == 0:
-                rep.sample({"history": show(cases[tid]["h"]), "last_event": t["ev"][-1], "verdict": "accepted"})
-            continue
-        w = v["why"]
-        if w["clause"] == "unsupported":
-            raise Machinery("the model cannot take event %d of history %s" % (w["at"], show(cases[tid]["h"])))
-        ev = t["ev"][w["at"] - 1]
-        rep.mismatch("%s @%d %s(c%d)" % (show(cases[tid]["h"]), w["at"], w["clause"], w["c"]),
-                     {"clause": w["clause"], "at": w["at"], "context": w["c"], "expected_projection": w["exp"],
-                      "event": ev, "history": cases[tid]["h"]}, dev=w.get("dev", ""))
-    selftest(rep, traces, got)
+    rep.evaluations = nev
+    selftest(rep, keep)
     rep.exhaustive = True
     rep.notes["probe"] = ("after every event, for every context: get g, typeof g, eval g, get f, typeof f, f(), "
                           "Object.prototype.zo, Math.zm, Array-prototype.za, String.zs, Error.prototype.ze, "
@@ -182,15 +184,14 @@ def run(rep):
                         "only its state effects are judged"]
 
 
-def selftest(rep, traces, got):
+def selftest_shape(t):
+    ks = [e["k"] for e in t["ev"]]
+    return len(ks) >= 2 and ks[0] in ("defvar", "set") and ks[1] not in (
+        "defvar", "set", "assign", "throw", "loop", "recurse", "ieval", "ieval_loop")
+
+
+def selftest(rep, base):
     """The binding must reject a trace with one corrupted field and a trace with one event dropped."""
-    base = None
-    for t in traces:
-        ks = [e["k"] for e in t["ev"]]
-        if got[t["tid"]]["ok"] and len(ks) >= 2 and ks[0] in ("defvar", "set") and ks[1] not in (
-                "defvar", "set", "assign", "throw", "loop", "recurse", "ieval", "ieval_loop"):
-            base = t
-            break
     if base is None:
         raise Machinery("self-test: no accepted trace of the required shape")
     a = copy.deepcopy(base)
